@@ -16,7 +16,7 @@ PROP = "C34"
 RULE = ("scenario = 4-10 requests against 1-3 scripted nameservers under virtual time; non-trivial = at least one request was answered "
         "by something other than the first plain answer (timeout, retransmission, failover, error code, TC/TCP, cancel, base free, waiting "
         "queue); distinct = hash of the scenario script")
-SIZES = dict(quick=1600, thorough=80000)
+SIZES = dict(quick=1200, thorough=80000)
 EAI_CANCEL = -90001
 T_A, T_AAAA, T_PTR = 1, 28, 12
 
@@ -277,6 +277,7 @@ def judge_case(case, meta):
     ids_replied = set()
     last_tx = {}
     nstage = {}
+    rstream = {}
     last_probe_t = None
     wait_end_t = None
     starved = set()
@@ -368,18 +369,29 @@ def judge_case(case, meta):
                     st("retransmitted_transactions")
         elif k == "SENT":
             # a reply carrying the id of an open transaction may end it (the library may consume it): be conservative
+            idlist = []
             if ev[2].startswith("udp"):
-                data = ev[5]
+                if len(ev[5]) >= 4 and ev[5] != "-":
+                    idlist.append(int(ev[5][:4], 16))
             else:
-                data = ev[5][4:] if len(ev[5]) >= 8 else ""
-            if len(data) >= 4:
-                rid_ = int(data[:4], 16)
-                t = int(ev[3])
+                # TCP replies arrive in arbitrary chunks: reassemble the stream of this connection into frames
+                rb = rstream.setdefault((ev[1], ev[4]), bytearray())
+                rb += bytes.fromhex(ev[5]) if ev[5] != "-" else b""
+                while len(rb) >= 4:
+                    l = struct.unpack(">H", rb[:2])[0]
+                    idlist.append(struct.unpack(">H", rb[2:4])[0])    # as soon as the id bytes are out the reply may be consumed
+                    if len(rb) < 2 + l or l == 0:
+                        break
+                    del rb[:2 + l]
+            t = int(ev[3])
+            for rid_ in idlist:
                 ids_replied.add(rid_)
                 for o, tx in list(open_tx.items()):
                     if tx["id"] == rid_:
                         tx["replied"] = True
                         open_tx.pop(o)["end"] = t
+        elif k == "TX":
+            rstream.pop((ev[1], ev[2]), None)
         elif k == "WAIT":
             wait_done = ev[3] == "1"
             wait_end_t = int(ev[1])
@@ -631,7 +643,7 @@ def replay(info):
 
 
 REG = dict(category="exploration",
-           text="Runtime monitor of the evdns request lifecycle under a virtual clock: ~1.6e3 (quick) / 8e4 (thorough) scenarios of 4-10 "
+           text="Runtime monitor of the evdns request lifecycle under a virtual clock: ~1.2e3 (quick) / 8e4 (thorough) scenarios of 4-10 "
                 "evdns_base_resolve_*/evdns_getaddrinfo requests against 1-3 scripted nameservers (drop, delay, SERVFAIL/REFUSED/NOTIMP/NXDOMAIN/"
                 "NODATA, TC with TCP fallback answered in chunks / closed at byte i / stalled, malformed, wrong id, duplicates), small attempts/"
                 "timeout/max-inflight/probe settings, cancels and evdns_base_free(0|1) between steps and inside callbacks, transaction ids from "
